@@ -44,6 +44,11 @@ def gen_feature(rng, kind, n):
             nan_rate = 0
         elif r < 0.18:
             vals = [float(np.float32(v)) for v in vals]; extra = "float32"
+        elif r < 0.24:
+            # float32 values that are not short decimals (0.1f = 0.100000001490116...): their shortest float32 text denotes
+            # another real number than the value itself
+            d = rng.choice([10, 3, 7])
+            vals = [float(np.float32(rng.randint(-40, 400) / d)) for _ in range(n)]; extra = "float32i"
         if rng.random() < 0.05:
             # neighbouring doubles: boundaries that differ in the 16th-17th significant digit only
             base = rng.choice([0.3, 1e10 / 3, 7e-5, 123456.789])
@@ -162,7 +167,7 @@ def gen_dataset(rng, target="binary", n=None, kinds=None, with_dev=None):
 
     def frame(cols_):
         idx = _index(rng, len(next(iter(cols_.values()))))
-        X = pd.DataFrame({k: pd.Series(v, dtype=object if gens[k][0] in ("ord", "cat") else ("float32" if gens[k][1] == "float32" else None))
+        X = pd.DataFrame({k: pd.Series(v, dtype=object if gens[k][0] in ("ord", "cat") else ("float32" if gens[k][1] in ("float32", "float32i") else None))
                           for k, v in cols_.items()})
         X.index = idx
         return X
@@ -182,7 +187,7 @@ def gen_dataset(rng, target="binary", n=None, kinds=None, with_dev=None):
     ds = dict(X=X, y=y, X_dev=X_dev, y_dev=y_dev, quantitative=quantitative, qualitative=qualitative,
               ordinal=ordinal, values_orders=values_orders, target=target, kinds=kinds,
               # a*x+b is not exact on neighbouring doubles: no affine re-encoding there (C11 says "exactly representable")
-              no_affine=any(g[1] == "ulp" for g in gens.values()))
+              no_affine=any(g[1] in ("ulp", "float32i") for g in gens.values()))
     ds["ok_target"] = _target_ok(ds)
     return ds
 
@@ -228,6 +233,12 @@ def gen_crafted(rng, target="binary"):
         s_star = int(thr * total_others / (1 - thr))
         sizes[i] = max(1, s_star - rng.choice([0, 0, 1, 2]))
         hint = thr
+    heavy_nan = hint is None and rng.random() < 0.12
+    if heavy_nan:
+        # mostly missing: all the non-missing rows together weigh less than the usual min_freq_mod thresholds, so that no
+        # placement of the missing values is viable (the feature must be dropped when dropna=True)
+        nan_size = sum(sizes) * rng.choice([4, 6, 9])
+        hint = rng.choice([0.2, 0.25])
     nan_rate = rng.choice(grid)
     v, yv = sample(rates, sizes, nan_size, nan_rate)
     with_dev = rng.random() < 0.6
@@ -249,7 +260,10 @@ def gen_crafted(rng, target="binary"):
         if rng.random() < 0.3:
             i = rng.randrange(k); drates[i] = rng.choice(grid)     # possibly another ranking on dev
         dsizes = [unit * rng.choice([1, 1, 2, 3, 4]) for _ in levels] if rng.random() < 0.5 else list(sizes)
-        dv, dyv = sample(drates, dsizes, nan_size if rng.random() < 0.7 else 0, rng.choice([nan_rate, rng.choice(grid)]))
+        dnan = nan_size if rng.random() < 0.7 else 0
+        if nan_size and not heavy_nan and rng.random() < 0.15:
+            dnan = sum(dsizes) * 9                                 # a dev sample with far more missing values than the train sample
+        dv, dyv = sample(drates, dsizes, dnan, rng.choice([nan_rate, rng.choice(grid)]))
         X_dev = frame(dv)
         y_dev = pd.Series(dyv, index=X_dev.index, name="target")
     ds = dict(X=X, y=y, X_dev=X_dev, y_dev=y_dev,
